@@ -31,3 +31,34 @@ package clickhouse_planner
 //@     go: if err != nil { panic(err) }
 //@     go: if AnalyzeMetrics15sShortcut(script) { confirm(`rate({a="b"} | level="x" [1m]) takes the 15s shortcut: the label filter level="x" is silently ignored`) }
 //@   end
+
+// ---------------------------------------------------------------- window of the metrics_15s read (C13)
+
+// cmpInt(c): c is a comparison "<raw column> op <integer literal>"; its operator and literal.
+//@ spec fn opOf(c sql.SQLCondition) string = unbox(c, "*sql.LogicalOp").fn
+//@ spec fn intOf(c sql.SQLCondition) int64 = unbox(unbox(c, "*sql.LogicalOp").clauses[1], "*sql.IntVal").val
+//@ spec fn isIntCmp(c sql.SQLCondition) bool = typeis(c, "*sql.LogicalOp") && len(unbox(c, "*sql.LogicalOp").clauses) == 2 && typeis(unbox(c, "*sql.LogicalOp").clauses[1], "*sql.IntVal")
+
+//@ func GetTypes
+//@   modifies nothing
+
+// Rows of metrics_15s carry the start of their 15-second bucket. The read must
+// cover the requested window [From, To): every bucket that intersects it, and
+// be widened by less than one bucket on either side.
+//@ func (*Metrics15ShortcutPlanner).GetQuery [C13]
+//@   requires ctx.From.UnixNano() >= 0 && ctx.To.UnixNano() >= ctx.From.UnixNano()
+//@   modifies whereArgs
+//@   check three-clauses: len(whereArgs) == 3 && isIntCmp(whereArgs[0]) && isIntCmp(whereArgs[1])
+//@   check lower-bound: opOf(whereArgs[0]) == ">=" && intOf(whereArgs[0]) <= ctx.From.UnixNano() && ctx.From.UnixNano() - intOf(whereArgs[0]) < 15000000000
+//@   check upper-bound: opOf(whereArgs[1]) == "<" && intOf(whereArgs[1]) >= ctx.To.UnixNano() && intOf(whereArgs[1]) - ctx.To.UnixNano() < 15000000000
+//@   replay:
+//@     import "time"
+//@     import "strings"
+//@     import "github.com/metrico/qryn/reader/logql/logql_transpiler_v2/shared"
+//@     import sql "github.com/metrico/qryn/reader/utils/sql_select"
+//@     go: ctx := &shared.PlannerContext{From: time.Unix(1000000000, 0), To: time.Unix(1000000007, 0), Metrics15sTableName: "metrics_15s"}
+//@     go: q := (&Metrics15ShortcutPlanner{Function: "count_over_time", Duration: time.Minute}).GetQuery(ctx, sql.NewRawObject("countMerge(count)"), "metrics_15s")
+//@     go: str, err := q.String(sql.DefaultCtx())
+//@     go: if err != nil { panic(err) }
+//@     go: if strings.Contains(str, "(samples.timestamp_ns) < (1000000005000000000)") { confirm("window ends at 1000000007 s but the read stops before the bucket that starts at 1000000005 s, which holds the rows of [1000000005, 1000000007) s: " + str) }
+//@   end
